@@ -1,6 +1,9 @@
 package core_domain
 
-import "strings"
+import (
+	"sort"
+	"strings"
+)
 
 type CodeDataStruct struct {
 	NodeName        string
@@ -34,9 +37,27 @@ func (d *CodeDataStruct) IsServiceClass() bool {
 }
 
 func (d *CodeDataStruct) SetMethodFromMap(methodMap map[string]CodeFunction) {
+	// map iteration order is random: list the functions in source order, so that the
+	// model is the same on every run and every consumer that keys functions by name
+	// (overloads share one) sees the same one last
+	var keys []string
+	for key := range methodMap {
+		keys = append(keys, key)
+	}
+	sort.Slice(keys, func(i, j int) bool {
+		a, b := methodMap[keys[i]].Position, methodMap[keys[j]].Position
+		if a.StartLine != b.StartLine {
+			return a.StartLine < b.StartLine
+		}
+		if a.StartLinePosition != b.StartLinePosition {
+			return a.StartLinePosition < b.StartLinePosition
+		}
+		return keys[i] < keys[j]
+	})
+
 	var methodsArray []CodeFunction
-	for _, value := range methodMap {
-		methodsArray = append(methodsArray, value)
+	for _, key := range keys {
+		methodsArray = append(methodsArray, methodMap[key])
 	}
 
 	d.Functions = methodsArray
